@@ -68,6 +68,12 @@ def _classes(spec, model, stats):
     if stats.get('to_dict_checks'):
         out.append('to_dict')
     out.append('observe:' + spec.get('observe', 'type'))
+    if stats.get('keyref_navigations'):
+        out.append('keyref_navigation')
+    if stats.get('pair_same_type'):
+        out.append('tuple_two_columns_same_type')
+    if stats.get('unpickled'):
+        out.append('unpickled')
     if spec.get('pk_step', 1) > 1:
         out.append('sparse_pk')
     for r in spec['refs']:
@@ -270,7 +276,31 @@ def _select_by_sql_virtual_subclass_attr(case, message):
     return False
 
 
+def _unpickled_stub_with_reverse_value(case, message):
+    """Entity.__reduce__/__setstate__: an unloaded reference target (a seed of the declared base class) that already holds a
+    non-key value -- the column-less side of a one-to-one, set when the referring row was loaded -- travels with that value;
+    __setstate__ -> _db_set_ removes the unpickled object from cache.seeds, so nothing reloads it and it keeps the base
+    class.  (The bare-key variant is repaired by 0c47526.)"""
+    focus, m = _focus_model(case)
+    if focus['kind'] != 'pickle_load' or not focus.get('path', '').startswith('unpickled') or 'obj' not in focus:
+        return False
+    o = focus['obj']
+    kcls = m.objs[o]['cls']
+    mm = focus.get('mismatch')
+    if mm == 'type':
+        if focus['got_class'] not in [m.cname(j) for j in m.anc[kcls] if j != kcls]:
+            return False
+    elif not ((mm == 'dict' and m.observe == 'dict') or (mm == 'attr' and m.observe == 'subattr'
+                                                         and 'cannot be read' in message)):
+        return False                       # the same stub seen first through to_dict() / a subclass-only attribute
+    for k, r in enumerate(m.spec['refs']):
+        if r['kind'] == 'o2o' and r['fk'] == 'holder' and any(oo == o for (h, oo) in m.links[k]):
+            return True
+    return any(not kr['composite'] and o in m.keyrows[j] for j, kr in enumerate(m.keyrefs))
+
+
 EXCLUSIONS = {
+    'unpickled_stub_with_reverse_value': _unpickled_stub_with_reverse_value,
     'diamond_two_references_class_change': _diamond_two_references_class_change,
     'select_by_sql_virtual_subclass_attr': _select_by_sql_virtual_subclass_attr,
     'isinstance_related_wrong_table': _isinstance_related_wrong_table,
